@@ -197,6 +197,9 @@ pub struct Run {
     replay_mode: bool,
     model_vectors: Mutex<Option<std::thread::JoinHandle<Option<usize>>>>,
     extra: Mutex<Map<String, Value>>,
+    /// Some(path) when this process is the sub-exploration of another build of the subject (see `Run::variant`):
+    /// the summary goes to that file, evidence and replay files are the parent's business
+    variant_out: Option<PathBuf>,
 }
 
 thread_local! {
@@ -281,6 +284,13 @@ impl Run {
             }
             i += 1;
         }
+        if let Invocation::Replay(v) = &inv {
+            if let Some(variant) = v.get("case").and_then(|c| c.get("build_variant")).and_then(|x| x.as_str()) {
+                if std::env::var_os("VERIF_IS_VARIANT").is_none() {
+                    replay_in_variant(prop, variant, v);
+                }
+            }
+        }
         let seed = std::env::var("VERIF_SEED").ok().and_then(|s| s.parse::<i64>().ok()).map(|x| x as u64).unwrap_or(0);
         let wall_cap = std::env::var("VERIF_WALL_CAP_S")
             .ok()
@@ -290,7 +300,8 @@ impl Run {
                 Tier::Thorough => 3000,
             });
         let root = verif_root();
-        let known = load_known(&root, prop);
+        // a variant sub-exploration leaves known-finding matching to its parent (which sees every violation)
+        let known = if std::env::var_os("VERIF_VARIANT_OUT").is_some() { vec![] } else { load_known(&root, prop) };
         // the model must reproduce the maintainers' documented expectations before judging anything
         let lits = match catch_unwind(spec::conformance::run) {
             Ok(n) => n,
@@ -326,6 +337,7 @@ impl Run {
             replay_mode: matches!(inv, Invocation::Replay(_)),
             model_vectors: Mutex::new(Some(vectors)),
             extra: Mutex::new(Map::new()),
+            variant_out: std::env::var_os("VERIF_VARIANT_OUT").map(PathBuf::from),
         };
         (run, inv)
     }
@@ -403,6 +415,97 @@ impl Run {
         if c < 5000 {
             self.unmatched.lock().unwrap().push(v);
         }
+    }
+
+    /// Re-run this driver's whole exploration against ANOTHER BUILD of the subject (`mc/variants/<variant>`, e.g.
+    /// the crate without its `std` feature) as a child process and merge what it covered and found: sub-domains are
+    /// prefixed with the variant name, violations carry `build_variant` in their case so that `--replay` is routed
+    /// back to the same build.
+    pub fn variant(&self, variant: &str) {
+        if self.variant_out.is_some() || self.replay_mode {
+            return;
+        }
+        let bin = self.prop.to_lowercase();
+        let exe = match build_variant(&self.root, variant, &bin) {
+            Ok(e) => e,
+            Err(m) => return self.machinery_error(m),
+        };
+        let out = self.root.join(format!("mc/target/variant-{}-{}.summary.json", variant, bin));
+        let _ = std::fs::remove_file(&out);
+        let remaining = self.wall_cap.saturating_sub(self.start.elapsed()).as_secs().max(30);
+        let t0 = Instant::now();
+        let st = std::process::Command::new(&exe)
+            .arg(self.tier.name())
+            .env("VERIF_VARIANT_OUT", &out)
+            .env("VERIF_IS_VARIANT", variant)
+            .env("VERIF_ROOT", &self.root)
+            .env("VERIF_SEED", (self.seed as i64).to_string())
+            .env("VERIF_WALL_CAP_S", remaining.to_string())
+            .stdout(std::process::Stdio::null())
+            .stderr(std::process::Stdio::null())
+            .status();
+        match st {
+            Ok(s) if s.success() => {}
+            Ok(s) => return self.machinery_error(format!("variant build '{}' of driver {} exited with {:?}", variant, bin, s.code())),
+            Err(e) => return self.machinery_error(format!("cannot run variant driver {}: {}", exe.display(), e)),
+        }
+        let sum: Value = match std::fs::read_to_string(&out).ok().and_then(|t| serde_json::from_str(&t).ok()) {
+            Some(v) => v,
+            None => return self.machinery_error(format!("variant driver {} left no summary", exe.display())),
+        };
+        if let Some(m) = sum["machinery_error"].as_str() {
+            return self.machinery_error(format!("[{} build] {}", variant, m));
+        }
+        for c in sum["caps_hit"].as_array().cloned().unwrap_or_default() {
+            self.cap_hit(format!("[{} build] {}", variant, c.as_str().unwrap_or("?")));
+        }
+        if sum["aborted"].as_bool().unwrap_or(false) {
+            self.cap_hit(format!("[{} build] exploration aborted", variant));
+        }
+        let mut tot = Tally::default();
+        for sd in sum["subdomains"].as_array().cloned().unwrap_or_default() {
+            let tally = Tally { states: sd["states"].as_u64().unwrap_or(0), transitions: sd["transitions"].as_u64().unwrap_or(0), nontrivial: sd["nontrivial"].as_u64().unwrap_or(0), digest: 0 };
+            tot.merge(&tally);
+            self.subs.lock().unwrap().push(Sub {
+                name: format!("[{} build] {}", variant, sd["name"].as_str().unwrap_or("?")),
+                size: sd["items"].as_u64().unwrap_or(0) as usize,
+                completed: sd["completed"].as_u64().unwrap_or(0) as usize,
+                tally,
+                wall_s: sd["wall_s"].as_f64().unwrap_or(0.0),
+                deterministic_recheck: match sd["determinism_recheck_item0"].as_str() {
+                    Some("identical") => "identical",
+                    Some("skipped") => "skipped",
+                    Some("n/a") => "n/a",
+                    _ => "see variant summary",
+                },
+            });
+        }
+        if tot.transitions == 0 && sum["violations_total"].as_u64().unwrap_or(0) == 0 {
+            return self.machinery_error(format!("variant build '{}' explored nothing", variant));
+        }
+        self.total.lock().unwrap().merge(&tot);
+        for v in sum["violations"].as_array().cloned().unwrap_or_default() {
+            let mut viol = Violation::new(
+                &format!("[{} build] {}", variant, v["site"].as_str().unwrap_or("?")),
+                v["class"].as_str().unwrap_or("?"),
+                json!({"build_variant": variant, "case": v["case"], "site": v["site"], "class": v["class"], "attrs": v["attrs"]}),
+                v["expected"].as_str().unwrap_or(""),
+                v["observed"].as_str().unwrap_or(""),
+            );
+            for (k, a) in v["attrs"].as_object().cloned().unwrap_or_default() {
+                viol = viol.attr(&k, a);
+            }
+            self.report(viol.attr("build_variant", variant));
+        }
+        // violations beyond the ten per class that the child stored still count
+        let stored = sum["violations"].as_array().map(|a| a.len() as u64).unwrap_or(0);
+        let extra = sum["violations_total"].as_u64().unwrap_or(0).saturating_sub(stored);
+        self.unmatched_count.fetch_add(extra, Relaxed);
+        self.extra.lock().unwrap().insert(
+            format!("variant_{}", variant),
+            json!({"states": tot.states, "transitions": tot.transitions, "nontrivial": tot.nontrivial, "exhaustive": sum["exhaustive"], "wall_s": t0.elapsed().as_secs_f64(),
+                   "how": format!("the same driver source built in mc/variants/{} against /repo with that feature set, run as a child process over the same domain", variant)}),
+        );
     }
 
     pub fn violations_so_far(&self) -> u64 {
@@ -588,6 +691,40 @@ impl Run {
         let subs = self.subs.lock().unwrap();
         let caps = self.caps.lock().unwrap().clone();
         let exhaustive = caps.is_empty() && !aborted && subs.iter().all(|s| s.completed == s.size);
+        if let Some(out) = &self.variant_out {
+            // sub-exploration of another build of the subject: hand everything to the parent driver
+            let nvec = match self.model_vectors.lock().unwrap().take().map(|h| h.join()) {
+                Some(Ok(Some(n))) => n,
+                _ => machinery_exit("the model disagrees with the independent expectation vectors (variant build)"),
+            };
+            let mut unmatched = self.unmatched.lock().unwrap().clone();
+            unmatched.sort_by_key(|v| v.size_key());
+            unmatched.dedup_by_key(|v| (v.site.clone(), v.class.clone(), v.case.to_string()));
+            let mut per_group: BTreeMap<(String, String), usize> = BTreeMap::new();
+            let viol: Vec<Value> = unmatched
+                .iter()
+                .filter(|v| {
+                    let n = per_group.entry((v.site.clone(), v.class.clone())).or_default();
+                    *n += 1;
+                    *n <= 10
+                })
+                .map(|v| json!({"site": v.site, "class": v.class, "attrs": v.attrs, "case": v.case, "expected": v.expected, "observed": v.observed}))
+                .collect();
+            let summary = json!({
+                "states": total.states, "transitions": total.transitions, "nontrivial": total.nontrivial,
+                "exhaustive": exhaustive, "aborted": aborted, "caps_hit": caps,
+                "violations_total": self.unmatched_count.load(Relaxed),
+                "violations": viol,
+                "machinery_error": self.machinery_error.lock().unwrap().clone(),
+                "model_independent_vectors_checked": nvec,
+                "wall_s": self.start.elapsed().as_secs_f64(),
+                "subdomains": subs.iter().map(|s| json!({"name": s.name, "items": s.size, "completed": s.completed, "states": s.tally.states, "transitions": s.tally.transitions, "nontrivial": s.tally.nontrivial, "wall_s": s.wall_s, "determinism_recheck_item0": s.deterministic_recheck})).collect::<Vec<_>>(),
+            });
+            if let Err(e) = std::fs::write(out, summary.to_string()) {
+                machinery_exit(&format!("cannot write variant summary {}: {}", out.display(), e));
+            }
+            std::process::exit(0);
+        }
         let replay_dir = self.root.join("replays");
         let _ = std::fs::create_dir_all(&replay_dir);
         // remove stale replay files of this property
@@ -736,6 +873,40 @@ impl Run {
             }
         }
         std::process::exit(if unlisted > 0 { 1 } else { 0 })
+    }
+}
+
+/// cargo-build one driver of a variant package; returns the executable
+fn build_variant(root: &PathBuf, variant: &str, bin: &str) -> Result<PathBuf, String> {
+    let target = root.join(format!("mc/target/variant-{}", variant));
+    let manifest = root.join(format!("mc/variants/{}/Cargo.toml", variant));
+    let out = std::process::Command::new("cargo")
+        .args(["build", "--release", "--offline", "--quiet", "--bin", bin, "--manifest-path"])
+        .arg(&manifest)
+        .env("CARGO_TARGET_DIR", &target)
+        .env("CARGO_NET_OFFLINE", "true")
+        .output()
+        .map_err(|e| format!("cannot run cargo: {}", e))?;
+    if !out.status.success() {
+        return Err(format!("variant build '{}' of driver {} failed: {}", variant, bin, String::from_utf8_lossy(&out.stderr).chars().take(1500).collect::<String>()));
+    }
+    Ok(target.join("release").join(bin))
+}
+
+/// `--replay` of a violation found in a variant build: unwrap the case and hand it to that build's driver
+fn replay_in_variant(prop: &str, variant: &str, file: &Value) -> ! {
+    let root = verif_root();
+    let bin = prop.to_lowercase();
+    let exe = build_variant(&root, variant, &bin).unwrap_or_else(|m| machinery_exit(&m));
+    let inner = &file["case"];
+    let body = json!({"property": prop, "site": inner["site"], "class": inner["class"], "attrs": inner["attrs"], "case": inner["case"], "expected": file["expected"], "observed": file["observed"]});
+    let tmp = root.join(format!("mc/target/variant-{}-{}.replay-{}.json", variant, bin, std::process::id()));
+    std::fs::write(&tmp, body.to_string()).unwrap_or_else(|e| machinery_exit(&format!("cannot write {}: {}", tmp.display(), e)));
+    let st = std::process::Command::new(&exe).arg("--replay").arg(&tmp).env("VERIF_IS_VARIANT", variant).env("VERIF_ROOT", &root).env_remove("VERIF_VARIANT_OUT").status();
+    let _ = std::fs::remove_file(&tmp);
+    match st {
+        Ok(s) => std::process::exit(s.code().unwrap_or(2)),
+        Err(e) => machinery_exit(&format!("cannot run {}: {}", exe.display(), e)),
     }
 }
 
